@@ -7994,18 +7994,28 @@ fn rewrite_segment_records(
 ) -> Result<(), WalStoreError> {
     fs::create_dir_all(root)?;
     fs::create_dir_all(segments_dir(root))?;
-    for path in segment_paths(root)? {
-        fs::remove_file(path)?;
-    }
+    let stale_paths = segment_paths(root)?;
     let path = segment_path(root, WalSegmentId::from_raw(1));
-    File::create(&path)?.sync_all()?;
+    // Stage the kept records beside the live segment and publish them with one
+    // rename: a process death during the rewrite leaves either the previous
+    // segment files or the complete replacement, never a partial rewrite that
+    // has already discarded committed transactions.
+    let staging = path.with_extension("ecwal-rewrite");
+    File::create(&staging)?.sync_all()?;
     for frame in frames {
-        append_segment_record(&path, DiskWalRecord::Frame(frame), false)?;
+        append_segment_record(&staging, DiskWalRecord::Frame(frame), false)?;
     }
     for commit in commits {
-        append_segment_record(&path, DiskWalRecord::Commit(commit), false)?;
+        append_segment_record(&staging, DiskWalRecord::Commit(commit), false)?;
     }
-    File::options().append(true).open(&path)?.sync_all()?;
+    File::options().append(true).open(&staging)?.sync_all()?;
+    fs::rename(&staging, &path)?;
+    for stale in stale_paths {
+        if stale != path {
+            fs::remove_file(stale)?;
+        }
+    }
+    sync_directory_store(&segments_dir(root))?;
     sync_directory_store(root)?;
     Ok(())
 }
